@@ -433,6 +433,30 @@ func (m *matrixRig) matrixCase(r *engine.Run, key string, ti int, pt ptype, shap
 	}
 	aux := map[string]string{"T": pt.name, "shape": shape, "arg": a.name, "plain": o1.status, "try": o2.status,
 		"recv": renderRecv(o1.recv), "model": describe(wantT, want)}
+	if a.n.k == aNum && (pt.t.Kind() == reflect.String || (pt.name == "[]string" && shape == "vararr")) {
+		// what Go's %v prints for the held number (known finding F-C16-026): the
+		// number is held as float64 or, for integer literals that fit, as int64
+		shapeOf := func(gf string) string {
+			if pt.name == "[]string" {
+				return bridge.Render([][]string{{gf, gf}})
+			}
+			switch shape {
+			case "sole", "second":
+				return bridge.Render(gf)
+			case "var1":
+				return bridge.Render([]string{gf})
+			}
+			return bridge.Render([]string{gf, gf})
+		}
+		if a.n.exact != nil {
+			aux["gofmt"] = shapeOf(a.n.exact.String())
+		} else {
+			aux["gofmt"] = shapeOf(fmt.Sprintf("%v", a.n.f))
+			if a.n.f == math.Trunc(a.n.f) && math.Abs(a.n.f) < 9.3e18 {
+				aux["gofmt2"] = shapeOf(fmt.Sprintf("%v", int64(a.n.f)))
+			}
+		}
+	}
 	if a.twin != nil && o1.status == "ok" && len(o1.recv) == 1 {
 		tw := a.twin
 		switch shape {
